@@ -76,7 +76,7 @@ type rcase struct {
 
 func genItems(r *vh.Rng, n int) [][]byte {
 	items := make([][]byte, n)
-	mode := r.Intn(4)
+	mode := r.Intn(6)
 	for i := range items {
 		switch mode {
 		case 0:
@@ -85,9 +85,13 @@ func genItems(r *vh.Rng, n int) [][]byte {
 			items[i] = []byte{byte(i), byte(i >> 8)}
 		case 2:
 			items[i] = nil // empty items
-		default:
+		case 3:
 			// items that look like node encodings (domain separation)
 			items[i] = append([]byte{byte(r.Intn(2))}, r.Bytes(64)...)
+		default:
+			// item lengths around hash block / buffer boundaries
+			ls := []int{31, 32, 33, 55, 56, 63, 64, 65, 111, 112, 119, 120, 127, 128, 129, 130, 255, 256, 257, 300}
+			items[i] = r.Bytes(ls[r.Intn(len(ls))])
 		}
 	}
 	return items
@@ -141,7 +145,7 @@ func bucket(n int) int {
 }
 
 func run(c *vh.Ctx) error {
-	c.Res.Rule = "item lists of every length 0..N plus lengths around powers of two; contents random / empty / node-like (leading 0 or 1 + 64 bytes); distinct by the hex of all items; non-trivial = at least 3 items (at least one branch with an uneven or nested split)"
+	c.Res.Rule = "item lists of every length 0..N plus lengths around powers of two; contents random / empty / node-like (leading 0 or 1 + 64 bytes) / item lengths around 32, 64, 128, 256 bytes (hash block and buffer boundaries); distinct by the hex of all items; non-trivial = at least 3 items (at least one branch with an uneven or nested split)"
 	c.Res.Modelled = []string{"Blake2b-256 is a Section variable in the theorems; in the correspondence the model returns the preimage term and the harness evaluates it with golang.org/x/crypto/blake2b"}
 	cf := c.NewCaseFile("c35", header)
 	cf.Func = "model_outs"
@@ -168,6 +172,15 @@ func run(c *vh.Ctx) error {
 	maxN := c.Pick(70, 300)
 	for n := 0; n <= maxN; n++ {
 		runCase(c, cf, genItems(c.Rng, n))
+	}
+	for _, l := range []int{0, 1, 31, 32, 33, 63, 64, 65, 126, 127, 128, 129, 130, 191, 192, 193, 255, 256, 257} {
+		a := c.Rng.Bytes(l)
+		runCase(c, cf, [][]byte{a})
+		b := append([]byte(nil), a...)
+		if l > 0 {
+			b[l-1] ^= 1 // differs from a only in the last byte
+		}
+		runCase(c, cf, [][]byte{a, b, a})
 	}
 	for _, p := range []int{128, 256, 512, 1024} {
 		if p > c.Pick(256, 1024) {
